@@ -906,6 +906,21 @@ def _body(R):
         R.cur["exhaustive"] = False
         R.exhaustive = False
 
+    # ---- exact integers beyond 2**53 (nanosecond time stamps): cells narrower than the float spacing at that magnitude
+    B = 17 * 10 ** 17
+    big_edges = [[B, B + 100, B + 200, B + 300], [B, B + 1, B + 2]]
+    R.scope("SplitIntoBins.fill/compute, 1-d, integer coordinates beyond 2**53",
+            "edges %r; flows over every edge, edge-1, edge+1 and mid-cell integer coordinate (python ints, compared exactly); "
+            "analyses collect3 / store, plain and typed argument variable" % (big_edges,), True)
+    for edges in big_edges:
+        w = edges[1] - edges[0]
+        coords = sorted({c for e in edges for c in (e - 1, e, e + 1, e + w // 2)})
+        for aname in ("collect3", "store"):
+            for vname in ("plain1", "typed1"):
+                flowj = [[x, 0, t + 1, ctx_for(t + 1, t % 3)] for t, x in enumerate(coords)]
+                sib_case(R, edges, flowj, aname, vname)
+                sib_case(R, edges, list(reversed(flowj)), aname, vname)
+
     # ---- every analysis x every argument variable on a fixed set of flows that touch every cell, border and outside
     R.scope("SplitIntoBins.fill/compute, every analysis x every argument variable",
             "%d analyses x 7 argument variables (1-d: plain, typed, second field; 2-d: plain tuple, list getter, Combine, "
